@@ -25,7 +25,7 @@
     measure not below the current second candidate no longer evicts the lighter
     one) and the Maglev fallback ([key % len] instead of the round-robin cursor
     when no table slot resolves to a candidate). *)
-From Coq Require Import List Arith ZArith NArith Bool Lia.
+From Coq Require Import List Arith ZArith NArith Bool Lia FMapPositive.
 Import ListNotations.
 Open Scope N_scope.
 
@@ -181,6 +181,12 @@ Definition measure (m : metric) (b : backend) : N :=
     of a slot never filled (shown not to survive a rebuild, [C12/Proofs.v]) *)
 Record maglev := mkM { m_size : N; m_table : list (option nat); m_addrs : list N }.
 
+(** the production-size table is kept in a binary trie keyed by the slot number
+    (see "The same rebuild over a binary-trie table" below) *)
+Definition pkey (c : N) : positive := N.succ_pos c.
+Definition ptable := PositiveMap.t nat.
+Record maglevf := mkMf { mf_size : N; mf_built : bool; mf_table : ptable; mf_addrs : list N }.
+
 Inductive policy :=
 | PRr (cur : N)
 | PRandom
@@ -188,9 +194,8 @@ Inductive policy :=
 | PP2c (m : metric)
 | PHrw (cur : N)
 | PMaglev (mg : maglev) (cur : N)
-(** the production table (65537 slots): contents not modelled, only whether it
-    was built and from which addresses *)
-| PMaglevBig (built : bool) (addrs : list N) (cur : N).
+(** the production table (65537 slots), in the trie representation *)
+| PMaglevBig (mg : maglevf) (cur : N).
 
 (** result of one selection: a backend, or the set a random draw is taken from *)
 Inductive pick := POne (h : option nat) | PAmong (hs : list nat).
@@ -344,6 +349,98 @@ Fixpoint maglev_probe (mg : maglev) (addr_of : nat -> N) (cands : list nat) (sta
     end
   end.
 
+(** ** The same rebuild over a binary-trie table, for the production size
+
+    [maglev_rebuild] keeps the table in a list (what the proofs of C12/Maglev.v
+    are about); at 65537 slots a list makes every probe linear.  The functions
+    below are the same loops, slot for slot, over a [PositiveMap] keyed by the
+    slot number; C12/MaglevFast.v shows that the two tables agree on every
+    slot. *)
+
+Fixpoint find_free_f (t : ptable) (off skip m next : N) (fuel : nat) : option (N * N) :=
+  match fuel with
+  | O => None
+  | S f =>
+    let c := (off + next * skip) mod m in
+    match PositiveMap.find (pkey c) t with
+    | None => Some (next, c)
+    | Some _ => find_free_f t off skip m (next + 1) f
+    end
+  end.
+
+Record popf := mkPf { pf_table : ptable; pf_next : list N; pf_filled : list N; pf_count : N }.
+
+Fixpoint pop_pass_f (offs skips targets : list N) (m : N) (ff : nat) (bs : list nat) (p : popf) : popf :=
+  match bs with
+  | [] => p
+  | b :: rest =>
+    if m <=? pf_count p then p
+    else if nth b targets 0 <=? nth b (pf_filled p) 0 then pop_pass_f offs skips targets m ff rest p
+    else
+      match find_free_f (pf_table p) (nth b offs 0) (nth b skips 0) m (nth b (pf_next p) 0) ff with
+      | None => p
+      | Some (j, c) =>
+        pop_pass_f offs skips targets m ff rest
+                   (mkPf (PositiveMap.add (pkey c) b (pf_table p)) (upd (pf_next p) b (j + 1))
+                         (upd (pf_filled p) b (nth b (pf_filled p) 0 + 1)) (pf_count p + 1))
+      end
+  end.
+
+Fixpoint pop_loop_f (offs skips targets : list N) (m : N) (ff : nat) (bs : list nat) (p : popf) (fuel : nat) : popf :=
+  match fuel with
+  | O => p
+  | S f => if m <=? pf_count p then p else pop_loop_f offs skips targets m ff bs (pop_pass_f offs skips targets m ff bs p) f
+  end.
+
+Definition maglev_rebuild_f (hashes : list (N * (N * N))) (size : N) (aw : list (N * N)) : maglevf :=
+  let n := length aw in
+  if (n =? 0)%nat || (size =? 0) then mkMf size false (PositiveMap.empty nat) []
+  else
+    let m := size in
+    let addrs := map fst aw in
+    let offs := map (fun a => fst (lookup2 a hashes) mod m) addrs in
+    let skips := map (fun a => snd (lookup2 a hashes) mod (m - 1) + 1) addrs in
+    let weights := map snd aw in
+    let total := sumN weights in
+    let targets0 := map (fun w => w * m / total) weights in
+    let targets := distribute targets0 n 0 (N.to_nat (m - sumN targets0)) in
+    let p0 := mkPf (PositiveMap.empty nat) (repeat 0 n) (repeat 0 n) 0 in
+    let fuel := N.to_nat m in      (* computed once: [S fuel] is the inner search's fuel, as in [pop_pass] *)
+    let p := pop_loop_f offs skips targets m (S fuel) (seq 0 n) p0 fuel in
+    mkMf size true (pf_table p) addrs.
+
+(** the probe-forward loop over the trie table *)
+Fixpoint maglev_probe_f (mg : maglevf) (addr_of : nat -> N) (cands : list nat) (start i : N) (fuel : nat)
+  : option nat :=
+  match fuel with
+  | O => None
+  | S f =>
+    let slot := (start + i) mod mf_size mg in
+    let hit :=
+      match PositiveMap.find (pkey slot) (mf_table mg) with
+      | None => None
+      | Some idx =>
+        match nth_error (mf_addrs mg) idx with
+        | None => None
+        | Some a => find (fun h => addr_of h =? a) cands
+        end
+      end in
+    match hit with
+    | Some h => Some h
+    | None => maglev_probe_f mg addr_of cands start (i + 1) f
+    end
+  end.
+
+(** a polynomial fingerprint of all the slots (what the driver prints for the
+    production table next to the whole table itself) *)
+Fixpoint table_fingerprint (t : ptable) (c : N) (acc : N) (fuel : nat) : N :=
+  match fuel with
+  | O => acc
+  | S f =>
+    let e := match PositiveMap.find (pkey c) t with Some i => N.of_nat i + 1 | None => 0 end in
+    table_fingerprint t (c + 1) ((acc * 1000003 + e) mod 2305843009213693951) f
+  end.
+
 (* ------------------------------------------------------------------ *)
 (** * Clusters and the whole state *)
 
@@ -379,7 +476,7 @@ Definition addr_weights (hp : heap) (l : list nat) : list (N * N) :=
 Definition lb_rebuild (s : state) (p : policy) (l : list nat) : policy :=
   match p with
   | PMaglev mg cur => PMaglev (maglev_rebuild (s_hashes s) (m_size mg) (addr_weights (s_heap s) l)) cur
-  | PMaglevBig _ _ cur => PMaglevBig (negb (length l =? 0)%nat) (map (fun h => b_addr (hget (s_heap s) h)) l) cur
+  | PMaglevBig mg cur => PMaglevBig (maglev_rebuild_f (s_hashes s) (mf_size mg) (addr_weights (s_heap s) l)) cur
   | _ => p
   end.
 
@@ -420,15 +517,20 @@ Definition lb_next (s : state) (p : policy) (key : option N) (cands : list nat) 
         end
       end
     end
-  | PMaglevBig built addrs cur =>
+  | PMaglevBig mg cur =>
     match key with
-    | None => let '(cur', r) := rr_next cur cands in (PMaglevBig built addrs cur', POne r)
-    | Some _ =>
+    | None => let '(cur', r) := rr_next cur cands in (PMaglevBig mg cur', POne r)
+    | Some k =>
       match cands with
       | [] => (p, POne None)
       | _ =>
-        if built then (p, PAmong cands)
-        else (PMaglevBig true (map (fun h => b_addr (hget hp h)) cands) cur, PAmong cands)
+        let mg1 := if mf_built mg then mg else maglev_rebuild_f (s_hashes s) (mf_size mg) (addr_weights hp cands) in
+        if negb (mf_built mg1) then (PMaglevBig mg1 cur, POne None)
+        else
+          match maglev_probe_f mg1 (fun h => b_addr (hget hp h)) cands (k mod mf_size mg1) 0 (N.to_nat (mf_size mg1)) with
+          | Some h => (PMaglevBig mg1 cur, POne (Some h))
+          | None => (PMaglevBig mg1 cur, POne (nth_error cands (N.to_nat (k mod N.of_nat (length cands)))))
+          end
       end
     end
   end.
@@ -524,7 +626,7 @@ Definition set_policy (s : state) (c : nat) (k : pkind) (m : metric) (size : N) 
     match k with
     | KRr => PRr 0 | KRandom => PRandom | KLeast => PLeast m | KP2c => PP2c m | KHrw => PHrw 0
     | KMaglev =>
-      if size =? 0 then lb_rebuild s (PMaglevBig false [] 0) (c_list cl)
+      if size =? 0 then lb_rebuild s (PMaglevBig (mkMf 65537 false (PositiveMap.empty nat) []) 0) (c_list cl)
       else lb_rebuild s (PMaglev (mkM size [] []) 0) (c_list cl)
     end in
   with_cluster s c (mkC (c_list cl) p).
